@@ -459,7 +459,19 @@ FinalAuto(m, ev) ==
       stray == {i \in 1..Len(m.sr) : <<m.sr[i].ep, m.sr[i].sys, m.sr[i].comp>> \notin keys}
       m2 == Check(m1, "C16.exactly_the_seven_stream_requests_once_per_sender", ~SrWanted(m) \/ \A k \in keys : okKey(k), ev)
       m3 == Check(m2, "C16.stream_requests_only_to_ardupilot_senders_on_their_channel", stray = {}, ev)
-  IN Check(m3, "C16.no_stream_request_unless_enabled", SrWanted(m) \/ (Len(m.sr) = 0 /\ Len(m.srEv) = 0), ev)
+      \* endpoints with several channels (a server and its peers) that were never disturbed: "each (channel, system,
+      \* component)" - the same sender ids heard on two channels of one endpoint are two senders. Judged on the events (they
+      \* carry the channel instance): one stream-requested event per due heartbeat of <<ep, inst, sys, comp>>, none besides.
+      \* A key with two heartbeats within 400 ms of the 30 s boundary is not judged (recorded times are the consumer's).
+      chKeys == {<<m.apHb[i].ep, m.apHb[i].inst, m.apHb[i].sys, m.apHb[i].comp>> :
+                   i \in {j \in 1..Len(m.apHb) : ~Steady(m, m.apHb[j].ep) /\ m.apHb[j].ep \notin m.disturbed}}
+      chHbT(k) == LET sel == SelectSeq(m.apHb, LAMBDA h : h.ep = k[1] /\ h.inst = k[2] /\ h.sys = k[3] /\ h.comp = k[4])
+                  IN [i \in 1..Len(sel) |-> sel[i].t]
+      chEvs(k) == SelectSeq(m.srEv, LAMBDA r : r.ep = k[1] /\ r.inst = k[2] /\ r.sys = k[3] /\ r.comp = k[4])
+      chNear(k) == \E i, j \in 1..Len(chHbT(k)) : LET d == chHbT(k)[j] - chHbT(k)[i] IN d > 30000 - 400 /\ d < 30000 + 400
+      chOk(k) == chNear(k) \/ Len(chEvs(k)) = Len(Due(chHbT(k), 30000))
+      m4 == Check(m3, "C16.stream_requested_once_per_channel_and_sender", ~SrWanted(m) \/ \A k \in chKeys : chOk(k), ev)
+  IN Check(m4, "C16.no_stream_request_unless_enabled", SrWanted(m) \/ (Len(m.sr) = 0 /\ Len(m.srEv) = 0), ev)
 
 OnFinal(m, ev) ==
   LET m0 == [m EXCEPT !.tEnd = ev.t]
